@@ -252,7 +252,7 @@ func init() {
 	register(&core.Check{
 		ID:    "C05",
 		Level: "exploration",
-		Rule: "per run one seeded honest world (TCB Info and QE Identity signed by two different TCB-signing certificates) verified with revocation checking under ~55 CRL situations: leaf / intermediate / each collateral signer revoked (alone, first/middle/last of up to 1000 entries), 10 near-miss serials, serial in the other CRL, CRLs signed by a foreign key / the root key / the other CA / in the wrong name / swapped CRLs, endpoint error / garbage / empty / truncated / PEM / bit-flipped signature or content / missing route for both CRLs, several Root-CRL distribution points (failing prefix then good, all failing, none, good-first); plus revocation-without-collateral. " +
+		Rule: "per run one seeded honest world (TCB Info and QE Identity signed by two different TCB-signing certificates; in a quarter of the worlds certificates name their issuer not by key identifier but not at all / by issuer+serial / by all three fields) verified with revocation checking under ~55 CRL situations: leaf / intermediate / each collateral signer revoked (alone, first/middle/last of up to 1000 entries), 10 near-miss serials, serial in the other CRL, CRLs signed by a foreign key / the root key / the other CA / in the wrong name / swapped CRLs, endpoint error / garbage / empty / truncated / PEM / bit-flipped signature or content / missing route for both CRLs, several Root-CRL distribution points (failing prefix then good, all failing, none, good-first); plus revocation-without-collateral. " +
 			"distinct = case name; every case but the near-miss / other-CRL / dp-prefix ones must be rejected",
 		Assumptions: []string{
 			"a serial listed in the other issuer's CRL is don't-care; the PCK-CRL issuer-chain header is not part of the claim",
